@@ -188,6 +188,7 @@ def run_history(s, ctx, hseed, nsteps, force_zero_did=False, wrap=False, big=Fal
             # a reply that arrives after the request timeout (50 ticks): the caller sees a timeout, the frame stays in the transport's queue
             return [(120 if late['on'] else 1, bytes.fromhex(rep))]
         conn.responder = responder
+        conn.inflight_survives_flush = True
         shadow = Shadow()
         mls = []          # MemoryLocation objects kept for reuse
         xfer = None       # harness view of the running download: dict(addr, total, sent, seq)
@@ -474,6 +475,10 @@ def run_history(s, ctx, hseed, nsteps, force_zero_did=False, wrap=False, big=Fal
             else:
                 got = verdict.replace('other:', '')
             was_late = late['on'] and len(frames) > nfr and late['reply'] is not None
+            if was_late or rng.random() < 0.1:
+                # time passes between two calls (the virtual clock only moves inside waits otherwise): a reply that was still on its way when the caller
+                # gave up is in the transport's queue by the time of the next call - which must flush it, not take it for its answer
+                cl.CLOCK.now += 400 * cl.TICK
             full = 'rig.call %s %s%s' % (cfg_line(st), line, ' late=1' if was_late else '')
             want = drv.ask(full)
 
